@@ -82,6 +82,8 @@ def check_dec(m, side, raw):
 def shard(args):
     if args[0] == 'register':
         return shard_register(args)
+    if args[0] == 'built':
+        return shard_built(args)
     kind, fc, tier = args
     acc = Acc()
     side = 'req' if kind == 'req' else 'rsp'
@@ -254,11 +256,47 @@ def shard_register(args):
     return acc
 
 
+def shard_built(args):
+    """responses the library builds itself: Report Slave ID (FC 17) answered from the device identity, for identities in
+    plain ASCII and in other scripts.  The identifier's contents are device specific; its layout is not: the byte count is
+    the number of bytes that follow it (identifier + run indicator), the run indicator is 00 or FF, and the client decoder
+    hands back exactly the identifier bytes on the wire."""
+    from harness import reset
+    from pymodbus.factory import ServerDecoder, ClientDecoder
+    acc = Acc()
+    for name, items in (('ascii', [(0, 'Vendor'), (1, 'PC-7'), (2, 'V2.11')]), ('latin', [(0, 'M\u00fcller AG'), (1, 'Typ \u00c4'), (2, 'v1')]),
+                        ('wide', [(0, '\u03a9mega\u20ac'), (1, '\u6e29\u5ea6'), (2, '1')]), ('empty', [])):
+        reset.control_block()
+        reset.set_identity(items)
+        acc.inc('evaluations')
+        wit = dict(cls='ReportSlaveIdResponse', dir='built', identity=name)
+        try:
+            rsp = ServerDecoder().decode(b'\x11').execute(None)
+            raw = bytes([rsp.function_code]) + rsp.encode()
+        except Exception as e:   # noqa
+            acc.violation('C01/ReportSlaveIdResponse/built/raise:%s' % type(e).__name__, wit, repr(e)[:100], 'ReportSlaveIdResponse')
+            continue
+        ok = len(raw) >= 3 and raw[0] == 0x11 and raw[1] == len(raw) - 2 and raw[-1] in (0x00, 0xFF)
+        if not ok:
+            acc.violation('C01/ReportSlaveIdResponse/built/layout', wit, 'server-built response %s: byte count %d, %d bytes follow it' % (raw.hex()[:60], raw[1] if len(raw) > 1 else -1, len(raw) - 2), 'ReportSlaveIdResponse')
+            continue
+        try:
+            d = ClientDecoder().decode(raw)
+            ident = bytes(d.identifier)
+        except Exception as e:   # noqa
+            ident = 'raise:' + type(e).__name__
+        if ident != raw[2:-1]:
+            acc.violation('C01/ReportSlaveIdResponse/built/decoded-identifier', wit, 'decoded identifier %r, on the wire %r' % (ident, raw[2:-1]), 'ReportSlaveIdResponse')
+    reset.control_block()
+    acc.add('classes', ('built', 'rsp'))
+    return acc
+
+
 def run(tier, seed):
-    shards = [(k, fc, tier) for k, fc in gen.CLASSES] + [('register', 'req', tier), ('register', 'rsp', tier)]
+    shards = [(k, fc, tier) for k, fc in gen.CLASSES] + [('register', 'req', tier), ('register', 'rsp', tier), ('built', 'rsp', tier)]
     acc = par.run_shards(shard, shards)
     he = None
-    if acc.count('classes') != len(gen.CLASSES) + 2:
+    if acc.count('classes') != len(gen.CLASSES) + 3:
         he = 'not every message class was enumerated'
     return dict(acc=acc, level=LEVEL, harness_error=he,
                 coverage=dict(
@@ -278,6 +316,10 @@ def run(tier, seed):
 
 
 def replay(w):
+    if w.get('dir') == 'built':
+        acc = shard_built(('built', 'rsp', 'quick'))
+        vs = [v for v in acc.violations if v['witness'] == w]
+        return bool(vs), '\n'.join(v['msg'] for v in vs) or 'no violation'
     side = w['side']
     raw = bytes.fromhex(w['pdu'])
     m = pdu.decode(side, raw)
